@@ -355,6 +355,20 @@ def r17_2(ctx):
                     if sroot is not None and exact_slice_root(sroot) and sroot == rroot:
                         ok_src = True
                         det_src = "source = the slice of exactly buffer_size bytes that was lent to the reader"
+            if not ok_src and sfld:
+                # the reader was lent `&mut v[..buffer_size]` of the very vector the copy reads from: the slice has
+                # exactly buffer_size bytes (the indexing itself checks that the vector is that long), and what is
+                # copied is at most read_len <= buffer_size bytes from the vector's start
+                import r_c04
+
+                rroot = r_c04._slice_root(cb, rt["args"][1])
+                if rroot is not None and exact_slice_root(rroot):
+                    ixc = cb.whole_defs(r_c04._slice_root(cb, {"k": "copy", "p": {"l": rroot, "pr": []}}))
+                    if len(ixc) == 1 and ixc[0][2] == "call":
+                        vf_ = [q[1] for q in trace(cb, ixc[0][3]["args"][0]).steps if q[0] == "field"]
+                        if vf_[:1] == sfld[:1] and cb.dominates(ixc[0][0], bb):
+                            ok_src = True
+                            det_src = f"source = self.{sfld[:1]}, of which the reader was lent exactly `[..buffer_size]` (the vector is at least that long)"
             ctx.ob("copy:source-is-resized-bounce-buffer", ok_src, site(cb, bb), det_src if ok_src else "the copy source is not the bounce vector resized to buffer_size")
             d_tr = trace(cb, dst)
             ok_dst = d_tr.origin == ("arg", 2) and 2 in nulls and cb.edge_dominates(nulls[2][0], nulls[2][1], nulls[2][2], bb)
